@@ -27,7 +27,7 @@ ASSUMPTIONS = ["Python json / float repr round-trips floats exactly; mesh format
 FLOORS = {'quick': {'json': 300, 'smesh': 60, 'vmesh': 40, 'txt': 150, 'csv': 80, 'file-layout': 200, 'reimport-eval': 1500,
                     'trims': 40, 'container': 40},
           'thorough': {'json': 3000, 'reimport-eval': 15000}}
-MANDATORY_TAGS = ['curve', 'surface', 'volume', 'rational', 'nonrational', 'container', 'container:ten-or-more', 'fmt:txt-volume', 'unnormalized:inside-unit-interval', 'unnormalized:some-directions-on-unit-interval', 'trims', 'fmt:json', 'fmt:smesh', 'fmt:vmesh',
+MANDATORY_TAGS = ['trims:own-sampling-density', 'curve', 'surface', 'volume', 'rational', 'nonrational', 'container', 'container:ten-or-more', 'fmt:txt-volume', 'unnormalized:inside-unit-interval', 'unnormalized:some-directions-on-unit-interval', 'trims', 'fmt:json', 'fmt:smesh', 'fmt:vmesh',
                   'fmt:txt1d', 'fmt:txt2d', 'fmt:csv', 'unnormalized']
 TECHNIQUE = ("runtime monitoring: round-trip oracle on every export/import pair (structural equality within printed precision + "
              "exact reference evaluation of the re-imported shape) and an independent harness-side parser of the written files")
@@ -175,6 +175,11 @@ def check(case, ctx):
         c5.ctrlpts = M([[0.05, 0.6], [0.2, 0.6], [0.2, 0.8], [0.05, 0.6]])
         c5.knotvector = knotvector.generate(1, 4)
         cc = multi.CurveContainer(*([c3, c4, c5][:rng.randint(1, 3)]))
+        if rng.random() < 0.6:
+            # the trims' own sampling density (the polygon the tessellator trims with)
+            c2.sample_size = rng.randint(5, 40)
+            cc.sample_size = rng.randint(4, 30)
+            ctx.tag('trims:own-sampling-density')
         trims = [ff, c2, cc]
         rng.shuffle(trims)
         o.trims = trims
@@ -211,6 +216,8 @@ def check(case, ctx):
             if ok:
                 for a, b in zip(trims, rt):
                     ctx.check(a.opt_get('reversed') == b.opt_get('reversed'), 'json/trim-sense', 'trim sense flag lost', what='trims')
+                    ctx.check(len(a.evalpts) == len(b.evalpts), 'json/trim-sampling-density', 'a %s trim sampled with %d points comes back sampled '
+                              'with %d points (the trimmed tessellation uses these points)' % (a.type, len(a.evalpts), len(b.evalpts)), what='trims')
                     if a.type == 'freeform':
                         ctx.check([list(p) for p in a.evalpts] == [list(p) for p in b.evalpts], 'json/trim-data', 'freeform trim points changed',
                                   what='trims')
